@@ -27,6 +27,21 @@ def run(ctx):
         require_guard(ctx, f, Cmp(["a1.shares", "call:*::count"], ["call:*DataAvailabilityHeader::square_width"], pass_op="Ge", name="present shares >= ods width"), "C07.count")
         per_iteration(ctx, f, ["a1.shares"], Has("call:*NamespaceProof*::verify_range", ["call:*::row_root", "call:*::column_root"], name="?verify_range"), "C07.share-proof", "every present share ?-verified against a DAH root", skip=Has("a1.shares"))
         per_iteration(ctx, f, ["a1.shares"], Cmp([POS], [["a1.index", "a1.shares"]], name="proof position == share position"), "C07.position", "every present share's proof is bound to the position it occupies", skip=Has("a1.shares"))
+        # the verifying loop visits every entry of self.shares (the reconstruction below uses all
+        # present shares, so an unverified one must not exist): no truncating iterator adaptor
+        from engine.rules import loop_heads
+        from engine.mir import std_tail, walk
+        vr = f.call_sites(["*NamespaceProof*::verify_range"])
+        heads = [(nb, en) for nb, en in loop_heads(ctx, f, ["a1.shares"]) if vr and any(v in f.reachable_from([en]) for v in vr)]
+        bad = []
+        for nb, en in heads:
+            it = call_expr(f, nb)
+            for n in walk(it):
+                if n[0] == "call" and std_tail(n[2]) in ("Iterator::take", "Iterator::skip", "Iterator::take_while", "Iterator::skip_while", "Iterator::step_by", "Iterator::nth", "Iterator::filter", "Iterator::map_while"):
+                    bad.append(std_tail(n[2]))
+                if n[0] == "call" and std_tail(n[2]) in ("Index::index",) :
+                    bad.append("sub-slice")
+        ctx.check(len(heads) == 1 and not bad, "C07.all-shares", f.path, "the proof-checking loop iterates over all of self.shares (no take/skip/filter/sub-slice: %s)" % (bad or "ok"), key="C07.all-shares")
         # root selection table
         ax = T + "eds::AxisType"
         row_i, col_i = variant_index(ctx, ax, "Row"), variant_index(ctx, ax, "Col")
